@@ -389,159 +389,136 @@ def mpint_samples(thorough=False):
     return sorted(out)
 
 
-class _FakeComposer:
-    def __init__(self):
-        self.composed_bytes = b''
+_MODEL = {}
 
 
-class _FakeParser:
-    def __init__(self, data):
-        self.data = bytes(data)
-        self.values = {}
+def _binary_models():
+    """model objects for ComposerBinary / ParserBinary instances: only the lowest primitives (_compose_numeric_array,
+    _parse_numeric_array: big-endian words, range and availability checks - decided by R1) are modelled; every other method
+    (compose_numeric, compose_raw, compose_bytes, compose_numeric_array, parse_numeric_array ...) is evaluated from the
+    repository's own statements through the static MRO (``_repo_class``)"""
+    if 'Composer' in _MODEL:
+        return _MODEL
+    from ..miniexec import Native, NativeError, Obj
 
-    def __getitem__(self, k):
-        return self.values[k]
+    class InvalidValue(NativeError):
+        pass
 
+    class NotEnoughData(NativeError):
+        pass
+    orders = {n: Obj(name=n, value=p) for n, p in (('BIG_ENDIAN', '>'), ('LITTLE_ENDIAN', '<'), ('NETWORK', '!'), ('NATIVE', '='))}
 
-def compose_mpint_by_ast(cb, value, method='compose_ssh_mpint', extra=None):
-    """bytes compose_ssh_mpint emits for ``value`` under big-endian order, obtained by evaluating the statements of
-    compose_ssh_mpint and _compose_mpint (sa.miniexec); the 4 byte word packing is the primitive decided by R1"""
-    from ..miniexec import Evaluator, Unsupported
-    outer, inner = cb.methods[method], cb.methods['_compose_mpint']
-    out = []
+    class Composer(Native):
+        _repo_class = None
 
-    def names(name):
-        if name.startswith('ByteOrder.'):
-            return name
-        if name == 'self.byte_order':
-            return 'ByteOrder.BIG_ENDIAN'
-        raise Unsupported('free name %s' % name)
+        def __init__(self, order=None):
+            self.byte_order = order or orders['NETWORK']
+            self._composed = bytearray()
 
-    def inner_hook(n, ev):
-        f = n.func
-        if isinstance(f, ast.Name) and f.id == 'ComposerBinary':
-            return _FakeComposer()
-        if isinstance(f, ast.Attribute) and f.attr == 'compose_numeric_array' and isinstance(ev.ev(f.value), _FakeComposer):
-            comp = ev.ev(f.value)
-            vals, size = ev.ev(n.args[0]), ev.ev(n.args[1])
-            comp.composed_bytes += b''.join(int(x).to_bytes(size, 'big') for x in vals)
-            return None
-        return NotImplemented
+        def _compose_numeric_array(self, values, item_size):
+            out = bytearray()
+            for v in values:
+                if not isinstance(v, int) or isinstance(v, bool) or not 0 <= v < (1 << (8 * item_size)):
+                    raise InvalidValue(v)
+                out += int(v).to_bytes(item_size, 'big' if self.byte_order.value in '>!' else 'little')
+            self._composed += out
 
-    def attr_hook(name):
-        return names(name)
+        @property
+        def composed_bytes(self):
+            return bytes(self._composed)
 
-    def outer_hook(n, ev):
-        f = n.func
-        if isinstance(f, ast.Attribute) and isinstance(f.value, ast.Name) and f.value.id == 'self':
-            args = [ev.ev(a) for a in n.args]
-            if f.attr == '_compose_mpint':
-                params = [a.arg for a in inner.node.args.args]
-                sub = Evaluator(dict(zip(params, args)), inner_hook, attr_hook)
-                sub_get = sub.ev
+        composed = composed_bytes
 
-                def ev_attr(node, _orig=sub_get):
-                    return _orig(node)
-                return run_with_attrs(sub, inner.node)
-            if f.attr == 'compose_numeric':
-                out.append(int(args[0]).to_bytes(args[1], 'big'))
-                return None
-            if f.attr == 'compose_raw':
-                out.append(bytes(args[0]))
-                return None
-        return NotImplemented
-    top = Evaluator(dict({'value': value}, **(extra or {})), outer_hook, attr_hook)
-    run_with_attrs(top, outer.node)
-    return b''.join(out)
+        @property
+        def composed_length(self):
+            return len(self._composed)
 
+    class Parser(Native):
+        _repo_class = None
 
-def run_with_attrs(ev, node):
-    """evaluate a function body; attribute reads on fake objects (composer.composed_bytes) resolve on the object"""
-    from ..miniexec import Evaluator
-    orig = ev.ev
+        def __init__(self, data, order=None, pos=0):
+            self._parsable, self._parsed_length, self._parsed_values = bytes(data), pos, {}
+            self.byte_order = order or orders['NETWORK']
 
-    def ev2(n):
-        if isinstance(n, ast.Attribute) and isinstance(n.value, ast.Name) and n.value.id in ev.env and \
-                isinstance(ev.env[n.value.id], (_FakeComposer, _FakeParser)):
-            return getattr(ev.env[n.value.id], n.attr)
-        return orig(n)
-    ev.ev = ev2
-    return Evaluator.function(ev, node)
+        @property
+        def unparsed_length(self):
+            return len(self._parsable) - self._parsed_length
+
+        @property
+        def parsed_length(self):
+            return self._parsed_length
+
+        def __getitem__(self, k):
+            return self._parsed_values[k]
+
+        def _parse_numeric_array(self, name, item_num, item_size, cls_):
+            need = item_num * item_size
+            if self._parsed_length + need > len(self._parsable):
+                raise NotEnoughData(need - self.unparsed_length)
+            o = self._parsed_length
+            return [int.from_bytes(self._parsable[o + i * item_size:o + (i + 1) * item_size], 'big' if self.byte_order.value in '>!' else 'little')
+                    for i in range(item_num)], need
+    _MODEL.update(Composer=Composer, Parser=Parser, orders=orders)
+    return _MODEL
 
 
-def parse_mpint_by_ast(pb, data, method='parse_ssh_mpint', extra=None, prefix=b''):
-    """value parse_ssh_mpint stores for the encoding ``data`` (length prefix included)"""
-    from ..miniexec import Evaluator, Stop, Unsupported
-    outer, inner = pb.methods[method], pb.methods['_parse_mpint']
-    state = {'value': None, 'advance': None}
+def _mpint_env(model, cls, kind):
+    from ..miniexec import Unsupported, class_call_hook
+    m = _binary_models()
+    m['Composer']._repo_class = model.cls('ComposerBinary')
+    m['Parser']._repo_class = model.cls('ParserBinary')
 
-    whole = bytes(prefix) + bytes(data)
-
-    def attr_hook(name):
-        if name == 'self._parsable':
-            return whole
-        if name == 'self._parsed_length':
-            return len(prefix)
-        if name == 'self.unparsed_length':
-            return len(data)
-        if name == 'int':
+    def names(nm):
+        if nm.startswith('ByteOrder.') and nm.split('.')[1] in m['orders']:
+            return m['orders'][nm.split('.')[1]]
+        if nm == 'int':
             return int
-        raise Unsupported('free name %s' % name)
+        raise Unsupported('free name ' + nm)
 
-    def inner_hook(n, ev):
-        f = n.func
-        d = ast.unparse(f)
-        if d == 'ParserBinary':
-            return _FakeParser(ev.ev(n.args[0]))
+    def extra(n, ev):
+        d = ast.unparse(n.func)
+        if d in ('ComposerBinary', 'ParserBinary'):
+            args = [ev.ev(a) for a in n.args]
+            kw = {k.arg: ev.ev(k.value) for k in n.keywords}
+            if d == 'ComposerBinary':
+                return m['Composer'](kw.get('byte_order', args[0] if args else None))
+            return m['Parser'](args[0], kw.get('byte_order', args[1] if len(args) > 1 else None))
         if d == 'six.int2byte':
             return bytes([ev.ev(n.args[0])])
-        if isinstance(f, ast.Attribute) and f.attr == 'parse_numeric_array' and isinstance(ev.ev(f.value), _FakeParser):
-            p = ev.ev(f.value)
-            key, num, size = ev.ev(n.args[0]), ev.ev(n.args[1]), ev.ev(n.args[2])
-            if num * size > len(p.data):
-                raise Unsupported('nested parser would run out of data')
-            p.values[key] = [int.from_bytes(p.data[i * size:(i + 1) * size], 'big') for i in range(num)]
-            return None
-        return NotImplemented
-
-    def outer_hook(n, ev):
-        f = n.func
-        d = ast.unparse(f)
         if d == 'six.indexbytes':
             return ev.ev(n.args[0])[ev.ev(n.args[1])]
-        if d == 'self._parse_numeric_array':
-            size = ev.ev(n.args[2])
-            return [int.from_bytes(data[:size], 'big')], size
-        if d == 'self._parse_mpint':
-            args = [ev.ev(a) for a in n.args]
-            params = [a.arg for a in inner.node.args.args if a.arg != 'self']
-            sub = Evaluator(dict(zip(params, args)), inner_hook, attr_hook)
-            return run_with_attrs(sub, inner.node)
-        if d == 'NotEnoughData':
-            raise Unsupported('NotEnoughData on a complete encoding')
         return NotImplemented
-    top = Evaluator(dict({'name': 'v'}, **(extra or {})), outer_hook, attr_hook)
-    orig_run = top.run
-
-    def run(stmts):
-        for st in stmts:
-            # self._parsed_values[name] = value ; self._parsed_length += ...
-            if isinstance(st, ast.Assign) and ast.unparse(st.targets[0]).startswith('self._parsed_values['):
-                state['value'] = top.ev(st.value)
-            elif isinstance(st, ast.AugAssign) and ast.unparse(st.target) == 'self._parsed_length':
-                state['advance'] = top.ev(st.value)
-            elif isinstance(st, ast.Raise):
-                raise Unsupported('raise on a complete encoding: %s' % ast.unparse(st))
-            else:
-                orig_run([st])
-    top.run = run
-    run_with_attrs(top, outer.node)
-    return state['value'], state['advance']
+    hook = class_call_hook(cls, extra, model)
+    return hook, hook.name_hook_for(cls.module, names)
 
 
-def mpint_pipeline(ctx, report, rule='C11.R6', signs=(1, -1)):
-    from ..miniexec import Unsupported
+def compose_mpint_by_ast(cb, value, method='compose_ssh_mpint', extra=None, model=None):
+    """bytes ``method`` emits for ``value`` under network byte order, obtained by evaluating the statements of the method and
+    of everything it calls on the composer (sa.miniexec); only the 4 byte word packing is the model's (decided by R1)"""
+    from ..miniexec import Evaluator
+    model = model or _MODEL.get('model')
+    hook, names = _mpint_env(model, cb, 'compose')
+    me = _binary_models()['Composer']()
+    Evaluator(dict({'self': me, 'value': value}, **(extra or {})), hook, names).function(cb.methods[method].node)
+    return bytes(me._composed)
+
+
+def parse_mpint_by_ast(pb, data, method='parse_ssh_mpint', extra=None, prefix=b'', model=None):
+    """(value, cursor advance) ``method`` produces for the encoding ``data`` found behind ``prefix`` in the buffer"""
+    from ..miniexec import Evaluator
+    model = model or _MODEL.get('model')
+    hook, names = _mpint_env(model, pb, 'parse')
+    me = _binary_models()['Parser'](bytes(prefix) + bytes(data), None, len(prefix))
+    Evaluator(dict({'self': me, 'name': 'v'}, **(extra or {})), hook, names).function(pb.methods[method].node)
+    return me._parsed_values.get('v'), me._parsed_length - len(prefix)
+
+
+def mpint_pipeline(ctx, report, rule='C11.R6', signs=(1, -1), quiet_fallback=False):
+    """returns True when both directions were evaluated for every sample (False: the code left the evaluable subset; with
+    ``quiet_fallback`` nothing is reported then and the caller applies its syntactic reading instead)"""
+    from ..miniexec import Raised, Unsupported
     model = ctx.model
+    _MODEL['model'] = model
     cb, pb = model.cls('ComposerBinary'), model.cls('ParserBinary')
     need = [(cb, 'compose_ssh_mpint'), (cb, '_compose_mpint'), (pb, 'parse_ssh_mpint'), (pb, '_parse_mpint')]
     for c, n in need:
@@ -559,9 +536,13 @@ def mpint_pipeline(ctx, report, rule='C11.R6', signs=(1, -1)):
         want = rfc4251_mpint(v)
         try:
             got = compose_mpint_by_ast(cb, v)
-        except Unsupported as e:
-            report.add(rule, cf.construct + '@tabulation', 'the mpint composer left the integer subset the tabulation understands: %s' % e)
+        except Raised as e:
+            report.add(rule, cf.construct + '@value[raises]', 'composing the %d bit integer %s.. raises %s' % (abs(v).bit_length(), hex(v)[:14], e.what[:50]))
             return
+        except Unsupported as e:
+            if not quiet_fallback:
+                report.add(rule, cf.construct + '@tabulation', 'the mpint composer left the integer subset the tabulation understands: %s' % e)
+            return False
         body = got[4:]
         decoded = int.from_bytes(body, 'big', signed=True) if body else 0
         if got[:4] != len(body).to_bytes(4, 'big') or decoded != v:
@@ -586,9 +567,12 @@ def mpint_pipeline(ctx, report, rule='C11.R6', signs=(1, -1)):
                     if pv2 != v or adv2 != len(want):
                         pv, adv = pv2, adv2
                         break
+        except Raised as e:
+            pv, adv = 'raises %s' % e.what[:40], None
         except Unsupported as e:
-            report.add(rule, pf.construct + '@tabulation', 'the mpint parser left the integer subset the tabulation understands: %s' % e)
-            return
+            if not quiet_fallback:
+                report.add(rule, pf.construct + '@tabulation', 'the mpint parser left the integer subset the tabulation understands: %s' % e)
+            return False
         if pv != v or adv != len(want):
             bad_p += 1
             if bad_p <= 3:
@@ -597,13 +581,16 @@ def mpint_pipeline(ctx, report, rule='C11.R6', signs=(1, -1)):
                                want.hex()[:24], hex(v)[:14], hex(pv)[:14] if isinstance(pv, int) else pv, adv, len(want)))
     if rule == 'C11.R6':
         fixed_mpint(ctx, report, cb, pb, rule)
+    ret_ok = True
     report.sample({'rule': rule, 'values': len(samples), 'bit_lengths': ('every bit length 1..4129' if ctx.thorough else '1..139, 248..263, 1016..1033, 2040..2057, 4088..4105') + '; min and max value of each bit length, both signs'})
+    return ret_ok
 
 
 def fixed_mpint(ctx, report, cb, pb, rule, negatives=True):
     """compose_mpint(value, length) / parse_mpint(name, length): big-endian, exactly ``length`` bytes, zero padded in
     front; a value that needs more bytes is refused with InvalidValue"""
     from ..miniexec import Raised, Unsupported
+    _MODEL['model'] = ctx.model
     if 'compose_mpint' not in cb.methods or 'parse_mpint' not in pb.methods:
         report.error('%s: compose_mpint / parse_mpint vanished' % rule)
         return
